@@ -69,15 +69,22 @@ def run_case(spec: dict[str, Any], sd: dict[str, Any], sweeps: list[list[int]]) 
     return run.drain()
 
 
+def extra_specs() -> dict[str, dict[str, Any]]:
+    from vlib.spec import make_loop
+
+    return {"router_multi": make_loop("router_multi", 1, None), "side_target": make_loop("side_target", 1, None)}
+
+
 def shard_positions(prop: str, tier: str, seed: int, name: str) -> dict[str, Any]:
     """One and two sweeps before every position of the FIFO run; a sweep before every step; the same under two hold-back schedules."""
     c = Campaign(prop, tier, seed, LEVEL)
-    spec = core_corpus()[name]
+    spec = extra_specs()[name] if name in extra_specs() else core_corpus()[name]
     base = Run(spec).drain()
     n = base.steps
     for sd in ({"style": "fifo", "d": [], "R": 2},
                {"style": "hold", "d": [], "R": 2, "hold": "SkipStage", "hold_for": 6},
-               {"style": "hold", "d": [], "R": 2, "hold": "CompleteTask", "hold_for": 4}):
+               {"style": "hold", "d": [], "R": 2, "hold": "CompleteTask", "hold_for": 4},
+               {"style": "hold", "d": [], "R": 2, "hold": "JumpToStage", "hold_for": 5}):
         for at in range(n + 1):
             for times in (1, 2):
                 if sd["style"] != "fifo" and times == 2:
@@ -198,9 +205,11 @@ def shard_concurrent(prop: str, tier: str, seed: int, name: str, held: str, P: i
         for _idx, tid, label, _r in s.trace:
             if tid == 0 and label == "commit":
                 worker_commits += 1
-            if tid == 1 and label.startswith("sql:SELECT * FROM stage_exec"):
-                if held.startswith("StartStage") and worker_commits == 2:
-                    window = "sweep-in-claim-plan-window"
+            # any read of the sweep that falls between the claim commit (2nd commit of the worker: poll claim, stage claim)
+            # and the plan commit (3rd) sees the claimed-but-unplanned stage; with more than two pre-emptions the sweep's
+            # first stage read may lie earlier and a later one (tasks, synthetic stages) inside the window
+            if tid == 1 and label.startswith("sql:SELECT") and held.startswith("StartStage") and worker_commits == 2:
+                window = "sweep-in-claim-plan-window"
                 break
         for b in set(c.buckets) - before:
             c.buckets[f"{b}|{window}"] = c.buckets.pop(b)
@@ -221,6 +230,7 @@ def run(c: Campaign, jobs: int) -> None:
     names = [k for k in core_corpus() if k not in SKIP]
     pos_names = names if not quick else ["diamond", "multitask", "terminal_sibling", "cof", "poll", "transient", "selfloop", "loop3", "fwdjump",
                                           "firstof", "quorum", "orsplit", "skip", "before", "after", "mutex", "built"]
+    pos_names = list(pos_names) + ["router_multi", "side_target"]
     args = [(shard_positions, (c.prop, c.tier, c.seed, n_)) for n_ in pos_names]
     n = 1200 if quick else 40000
     shards = max(1, jobs)
